@@ -319,10 +319,16 @@ func main() {
 			r.Cache = filepath.Join(work, "cache-"+r.ID)
 			rr = append(rr, r)
 		}
+		var rwg sync.WaitGroup
 		for _, r := range rr {
 			os.MkdirAll(r.Cache, 0o777)
-			execRun(r, mod)
+			rwg.Add(1)
+			go func(r *Run) {
+				defer rwg.Done()
+				execRun(r, mod)
+			}(r)
 		}
+		rwg.Wait()
 		if *raceRepo != "" {
 			r := &Run{ID: "race-repo", Kind: "race-repo", GMP: 8, Yield: 1 + rnd.Uint64()%1000000, Patterns: strings.Split(*raceRepo, ","), Format: "json", Tests: true, Race: true}
 			r.Cache = filepath.Join(work, "cache-"+r.ID)
